@@ -182,14 +182,30 @@ def rule_patterns(ctx, mod, model):
                     try:
                         runs = [(k, eval_method(ctx, cname, tonic, direction, k, model=model)) for k in (1, 2, 3)]
                     except (CannotDecide, nd.Shape) as e2:
-                        raise AnalysisError("%s(%s).%s(): %s" % (cname, label, direction, e2))
+                        if not isinstance(tonic, AbsStr):
+                            raise AnalysisError("%s(%s).%s(): %s" % (cname, label, direction, e2))
+                        # the method cannot be followed for a tonic with unknown accidentals either: the tonic is specialised
+                        # to the spellings the property names (up to double accidentals), with the real code
+                        ctx.note(R, "%s(%s).%s() cannot be evaluated for unknown accidentals (%s); specialised to '', '#', 'b', '##', 'bb'"
+                                 % (cname, label, direction, short(str(e2), 90)))
+                        runs = []
+                        for acc in ("", "#", "b", "##", "bb"):
+                            t_ = L + acc
+                            try:
+                                ps_ = eval_method(ctx, cname, t_, direction, 1, model=model)
+                            except (CannotDecide, nd.Shape) as e3:
+                                raise AnalysisError("%s(%s).%s(): %s" % (cname, t_, direction, e3))
+                            runs.append((1, ps_, Lin.of(NAT[L] + acc.count("#") - acc.count("b")), t_))
                 ok, why = True, ""
-                for k, paths in runs:
+                for entry in runs:
+                    k, paths = entry[0], entry[1]
+                    root_pitch_ = entry[2] if len(entry) > 2 else root_pitch
+                    tlabel = entry[3] if len(entry) > 3 else label
                     if not paths:
                         ok, why = False, "no outcome"
                     for p in paths:
                         if p.kind != "return":
-                            ok, why = False, "%s %r" % (p.kind, p.value)
+                            ok, why = False, "%s(%s): %s %r" % (cname, tlabel, p.kind, p.value)
                             break
                         if k is None:
                             rl = split_octaves(p.interp, p.value, n)
@@ -199,7 +215,7 @@ def rule_patterns(ctx, mod, model):
                                 rl = "with octaves=%d the result has %s notes instead of %d * %d + 1" % (
                                     k, len(v) if isinstance(v, list) else repr(v), k, len(want))
                             else:
-                                fs = formula_of(p.interp, v, L, root_pitch)
+                                fs = formula_of(p.interp, v, L, root_pitch_)
                                 if any(fs[j] != fs[j % len(want)] for j in range(len(want) * k)):
                                     rl = "with octaves=%d the octaves differ from each other: %s" % (k, fs)
                                 else:
@@ -207,8 +223,8 @@ def rule_patterns(ctx, mod, model):
                         if isinstance(rl, str):
                             ok, why = False, rl
                             break
-                        got = formula_of(p.interp, rl[0], L, root_pitch)
-                        last = formula_of(p.interp, [rl[1]], L, root_pitch)
+                        got = formula_of(p.interp, rl[0], L, root_pitch_)
+                        last = formula_of(p.interp, [rl[1]], L, root_pitch_)
                         if not match(got, want):
                             ok, why = False, "one octave is (letters up, semitones) %s, the defining pattern %s gives %s" % (
                                 got, pattern if direction == "ascending" else "reversed", want)
